@@ -975,6 +975,27 @@ def desugar(rec, prog, stats):
         if t["k"] != "call" or t.get("target") is None:
             continue
         c = t.get("resolved") or t.get("callee")
+        if (c or "").endswith("Iterator::collect") and len(t["args"]) == 1 and t["args"][0]["k"] == "move" and not t["args"][0]["place"]["proj"] and not t["dest"]["proj"]:
+            # it.map(f).collect::<Result<(), E>>()  ==  it.try_for_each(f): FromIterator for Result<(), E> pulls items until the first Err and
+            # returns it, Ok(()) otherwise (the unit collection keeps nothing)
+            dty_ = rec["locals"][t["dest"]["local"]]
+            xl_ = t["args"][0]["place"]["local"]
+            dm_ = _single_def(rec, xl_)
+            if dty_.get("k") == "adt" and dty_.get("path") == "core::result::Result" and (dty_.get("args") or [{}])[0].get("k") == "tuple" \
+                    and not (dty_["args"][0].get("elems")) and dm_ is not None and dm_[0] == "call" and _uses_of(rec, xl_) == 2 \
+                    and (dm_[3].get("resolved") or dm_[3].get("callee")) == "core::iter::Iterator::map" and len(dm_[3]["args"]) == 2:
+                mt_ = dm_[3]
+                mca_ = mt_.get("cargs") or []
+                if len(mca_) >= 3 or len(mca_) == 2 or True:
+                    ity_ = mca_[0] if mca_ else rec["locals"][mt_["args"][0]["place"]["local"]] if mt_["args"][0]["k"] in ("move", "copy") else {"k": "other"}
+                    fty_ = rec["locals"][mt_["args"][1]["place"]["local"]] if mt_["args"][1]["k"] in ("move", "copy") and not mt_["args"][1]["place"]["proj"] else {"k": "other"}
+                    rec["blocks"][dm_[1]]["term"] = {"k": "goto", "target": mt_["target"]}
+                    blk["term"] = {"k": "call", "callee": "core::iter::Iterator::try_for_each", "resolved": "core::iter::Iterator::try_for_each", "cargs": [ity_, fty_, dty_],
+                                   "rargs": [ity_, fty_, dty_], "args": [copy.deepcopy(mt_["args"][0]), copy.deepcopy(mt_["args"][1])], "dest": copy.deepcopy(t["dest"]),
+                                   "target": t["target"], "line": t.get("line")}
+                    stats.setdefault(rec["path"], []).append("desugar:map.collect<Result<(),E>>")
+                    changed = True
+                    continue
         if c in CONTAINS and len(t["args"]) == 2 and t["args"][1]["k"] in ("move", "copy") and not t["args"][1]["place"]["proj"]:
             b = _range_bounds(rec, prog, t["args"][0])
             if b is None:
